@@ -45,11 +45,12 @@ Fixpoint dumpv (t : vt) : vt :=
   | x => x
   end.
 
-(* _convert_value: models dumped, lists mapped, everything else (dicts included) untouched *)
+(* _convert_value (after /repo dd85cf5): models dumped, lists and dicts mapped *)
 Fixpoint convert_value (t : vt) : vt :=
   match t with
   | VModel _ => dumpv t
   | VList l => VList (map convert_value l)
+  | VDict kv => VDict (map (fun p : string * vt => let (k, v) := p in (k, convert_value v)) kv)
   | x => x
   end.
 
@@ -333,37 +334,35 @@ Fixpoint wf_keys (t : vt) : bool :=
 (* caller headers pairwise distinct up to case (otherwise the caller contradicts himself) *)
 Definition names_distinct_ci (h : headers) : bool := keys_unique (map (fun p => lower (fst p)) h).
 
-(* no UNSET and no Upload inside a model; used below *)
-(* [clean depth-insensitive]: tree that json.dumps can serialise once uploads are nulled:
-   no UNSET anywhere, no model and no Upload-in-model outside the reach of _convert_value *)
-Fixpoint dumped_ok (t : vt) : bool :=            (* below a model: pydantic recurses everywhere *)
+(* UNSET anywhere in a tree (model fields included) *)
+Fixpoint has_unset (t : vt) : bool :=
   match t with
-  | VUnset => false
-  | VList l => forallb dumped_ok l
-  | VDict kv => forallb (fun q => dumped_ok (snd q)) kv
-  | VModel fs => forallb (fun q => dumped_ok (snd q)) fs
-  | _ => true
+  | VUnset => true
+  | VList l => existsb has_unset l
+  | VDict kv => existsb (fun q => has_unset (snd q)) kv
+  | VModel fs => existsb (fun q => has_unset (snd q)) fs
+  | _ => false
   end.
-Fixpoint plain_ok (t : vt) : bool :=             (* below a plain dict: nothing is converted *)
-  match t with
-  | VUnset => false
-  | VModel _ => false                            (* finding class C11-model-under-dict *)
-  | VList l => forallb plain_ok l
-  | VDict kv => forallb (fun q => plain_ok (snd q)) kv
-  | _ => true
-  end.
-Fixpoint value_ok (t : vt) : bool :=             (* a top-level value / list element *)
-  match t with
-  | VUnset => false
-  | VModel _ => dumped_ok t
-  | VList l => forallb value_ok l
-  | VDict _ => plain_ok t
-  | _ => true
-  end.
+(* the restriction of the main stream: UNSET only as a top-level value *)
 Definition vars_ok (vars : list (string * vt)) : bool :=
-  forallb (fun q => is_unset (snd q) || value_ok (snd q)) vars.
+  forallb (fun q => is_unset (snd q) || negb (has_unset (snd q))) vars.
 
-(* a model somewhere below a plain dict (not reached by _convert_value) *)
+(* every Upload object anywhere in a value: through lists, dicts and the set fields of models *)
+Fixpoint deep_ids (t : vt) : list nat :=
+  match t with
+  | VUpload id => [id]
+  | VList l => flat_map deep_ids l
+  | VDict kv => flat_map (fun q : string * vt => deep_ids (snd q)) kv
+  | VModel fs =>
+      (fix go (fs : list (mfield * vt)) : list nat :=
+         match fs with
+         | [] => []
+         | (f, v) :: r => if mf_set f then deep_ids v ++ go r else go r
+         end) fs
+  | _ => []
+  end.
+
+(* a model somewhere below a plain dict (regression class of the fixed finding C11-model-under-dict) *)
 Fixpoint has_model (t : vt) : bool :=
   match t with
   | VModel _ => true
